@@ -6,7 +6,9 @@ class C08(vlib.Spec):
     model_vo = ["theories/Coll/ModelGHT2.vo"]
     props_vo = "theories/Props/C08.vo"
     theorems = ["C08_history", "C08_insert", "C08_contains", "C08_iter_nodup", "C08_merge", "C08_pcmp", "C08_pcmp_rel", "C08_eq",
-                "C08_prefix", "C08_find_leaf", "C08_join", "C08_join_nodup", "C08_cart", "C08_force", "C08_holds_b_sound"]
+                "C08_prefix", "C08_find_leaf", "C08_join", "C08_join_nodup", "C08_cart", "C08_force", "C08_holds_b_sound",
+                "C08_multiset_insert", "C08_multiset_merge", "C08_multiset_force_drain",
+                "C08_forced_eq_refuted", "C08_empty_child_refuted"]
     crate, group, binary = "h_coll", "light", "h_coll"
     imports = "From HV Require Import Coll.ModelGHT2."
     harness_shards = 4
@@ -23,6 +25,14 @@ class C08(vlib.Spec):
             "every observation compared with the Coq model and with the abstract set of rows; non-trivial = at least "
             "one insert and one other op; distinct = distinct case JSON")
 
+    def coverage_extra(self, cases, results):
+        exh = [c for c in cases if c.get("src") == "exh"]
+        d = {"exhaustive_pairs_of_tries": len(exh)}
+        if exh:
+            d["exhaustive_scope"] = ("all pairs of tries over {0,1}^arity: every subset for shapes k1v1/k2v0/k0v2, "
+                                     "subsets of size <= 2 for k2v1/k1v2; cmp both ways, ==, is_bot, join, merge + flag")
+        return d
+
     def gen(self, rng, tier, n):
         shapes = vlib.run_harness(self.ctx, self.bin, [{"k": "shapes"}], name="shapes")[0]
         got = {s["shape"]: {"nk": s["nk"], "arity": s["arity"], "nko": s["nko"]} for s in shapes}
@@ -31,7 +41,7 @@ class C08(vlib.Spec):
         return coll.gen_c08(rng, tier, n)
 
     def n_cases(self, tier):
-        return 500 if tier == "quick" else 8000
+        return 400 if tier == "quick" else 6000
 
     def to_coq(self, case, res):
         return coll.c08_term(case, res)
